@@ -65,6 +65,14 @@ def seq_work(rng):
 
     for a in range(lo, hi):
         A = SeqNum(a)
+        # a number is neither newer nor older than itself
+        A2 = SeqNum(a)
+        n += 1
+        try:
+            if A.diff(A2) != 0 or A.newer_than(A2) or (A < A2) or (A > A2):
+                flag("a number compares newer/older than itself", a, 0, "a=%d: diff=%d newer_than=%s a<a=%s a>a=%s" % (a, A.diff(A2), A.newer_than(A2), A < A2, A > A2))
+        except Exception as e:
+            flag("comparing a number with itself raises %s" % type(e).__name__, a, 0, repr(e))
         for d in _D:
             n += 1
             want = ring_add(a, d)
